@@ -22,7 +22,7 @@ ATOMS_FULL = [
 ]
 ATOMS_SMALL = [atom('p'), atom('q', X), atom('r', X, Y), cmp(X, '<', num(3))]
 QUANTS = [('forall', [var('X')]), ('exists', [var('X')]), ('forall', [var('X', 'i')]),
-          ('exists', [var('X'), var('Y')])]
+          ('exists', [var('X'), var('Y')]), ('forall', [var('S', 's'), var('X', 'i')])]
 NAME_POOL = ['p', 'h', 't', 'hp', 'tp', 'thp', 'ht', 'hh']
 
 
